@@ -200,6 +200,8 @@ class Interp:
             sub_need = [o in needed for o in e.outvars]
             try:
                 outs = self.apply(e, ins, sub_need)
+            except ZeroDivisionError as ex:
+                raise Unsupported(f"division by a constant zero ({ex})  at {_where(e)} [{', '.join(str(v.aval) for v in e.invars)}]") from None
             except Unsupported as ex:
                 if "  at " not in str(ex):
                     raise Unsupported(f"{ex}  at {_where(e)} [{', '.join(str(v.aval) for v in e.invars)}] operand types {[type(a.reshape(-1)[0]).__name__ if a.size else None for a in ins]}") from None
@@ -399,6 +401,11 @@ class Interp:
                 return a ** b
             if b.isconst() and b.c[0] == Fraction(1, 2):
                 return self.sqrt1(a)
+            if b.isconst() and b.c[0] == Fraction(-1, 2):
+                return 1 / self.sqrt1(a)
+            if b.isconst() and b.c[0].denominator == 2:
+                k = (b.c[0] - Fraction(1, 2))
+                return self.sqrt1(a) * (a ** int(k))
             if b.isconst() and b.c[0].denominator == 1:
                 return a ** int(b.c[0])
             raise Unsupported("pow with non-integer exponent")
@@ -762,6 +769,35 @@ class Interp:
             qo[idx] = Qm
             ro[idx] = Rm
         return [qo, ro]
+
+    def p_seigh(self, e, ins, p):
+        """contract of jnp.linalg.eigh (A2): ANY (w, V) with A V = V diag(w), V^T V = I, w ascending.  The harness supplies the pairs
+        in call order (self.eigh_queue) and is responsible for them satisfying the contract for the operand it constructs; the
+        operand itself is recorded as an IR probe."""
+        a = ins[0]
+        self.probes.setdefault("eigh", []).append(a)
+        queue = self.__dict__.get("eigh_queue")
+        if not queue:
+            raise Unsupported("eigh without a contract oracle")
+        if a.ndim != 2:
+            raise Unsupported("batched eigh")
+        w, V = queue.pop(0)
+        return [w, V]
+
+    def p_sort(self, e, ins, p):
+        # concrete keys only (the eigenvalue oracles are concrete ascending numbers)
+        if p.get("num_keys", 1) != 1 or ins[0].ndim != 1:
+            raise Unsupported("sort: only 1-D single-key sorts")
+        keys = []
+        for x in ins[0]:
+            x = Q.lift(x) if not isinstance(x, (int, bool)) else x
+            if isinstance(x, Q):
+                if not x.isconst():
+                    raise Unsupported("sort of symbolic keys")
+                x = x.c[0]
+            keys.append(x)
+        order = sorted(range(len(keys)), key=lambda i: (keys[i], i))
+        return [np.array([op[i] for i in order], dtype=object) for op in ins]
 
     def p_sadj(self, e, ins, p):
         a = ins[0]
